@@ -26,7 +26,11 @@ RECURSIVE IndexOfFirst(_, _, _)
 IndexOfFirst(as, n, i) ==           \* Entry.GetAttributeValues returns the FIRST one
   IF i > Len(as) THEN 0 ELSE IF as[i].name = n THEN i ELSE IndexOfFirst(as, n, i + 1)
 RemoveAt(s, i) == SubSeq(s, 1, i - 1) \o SubSeq(s, i + 1, Len(s))
-Indices(es, dn) == {i \in 1..Len(es) : es[i].dn = dn}
+\* add / modify / delete find their entry by substring: a request DN that is a proper substring of an entry's DN names that
+\* entry too.  "pu1" is concretised as a proper substring of u1's DN (no entry ever has the DN "pu1"); all other pool DNs
+\* are substrings of nothing but themselves.  (Bind compares DNs exactly.)
+Names(req, dn) == req = dn \/ (req = "pu1" /\ dn = "u1")
+Indices(es, dn) == {i \in 1..Len(es) : Names(dn, es[i].dn)}
 
 \* attribute names used by the generators are ordered by this table (byte order of the concrete names)
 NameOrder == <<"a1", "a2", "a3", "password">>
